@@ -6,31 +6,56 @@ From DV Require Import Limits.Limits Spec.LimitsSpec Proofs.LimitsBase Proofs.Li
 From Coq Require Import ZifyBool ZifyN ZifyNat.
 Local Open Scope N_scope.
 
-Record linv (L : limits) (s : state) : Prop := mkLinv {
-  li_reg : reg_reachable (max_names_per_connection L) (reg L s);
-  li_ids : cids (s_cdata s) = ids (s_conns s);
-  li_bounded : bounded (max_names_per_connection L) (s_conns s);
-  li_ncomp : s_ncomplete s = n_registered s;
-  li_ninc : s_nincomplete s = n_unregistered s;
-  li_user : forall u, get_uid (s_byuser s) u = n_registered_of s u;
-  li_nrules : forall d, In d (s_cdata s) -> d_nrules d = n_rules s (d_id d);
-  li_rules_live : forall e, In e (s_rules s) -> In (fst e) (ids (s_conns s));
-  li_comp_le : s_ncomplete s <= max_completed_connections L;
-  li_inc_le : s_nincomplete s <= max_incomplete_connections L;
-  li_user_le : forall u, get_uid (s_byuser s) u <= max_connections_per_user L;
-  li_rules_le : forall d, In d (s_cdata s) -> d_nrules d <= max_match_rules_per_connection L;
-  li_pend_le : forall c, n_awaiting s c <= max_replies_per_connection L;
-  li_auth : forall c, registered s c = true -> authenticated s c = true
+(* Bounds on the counts, possibly different for every user / connection.  A step under the limits L keeps
+   the counts within B as soon as B is at least L everywhere ([covers]): a count only grows while it is
+   below L's limit.  With B constant = L this is the invariant of a run under L; with B = max (count, L) it
+   says that a count above its limit (after a reload lowered the limit) cannot grow. *)
+Record bounds := mkB { b_comp : N; b_user : N -> N; b_inc : N; b_names : N -> N; b_rules : N -> N; b_pend : N -> N }.
+
+Definition bounds_of (L : limits) : bounds :=
+  mkB (max_completed_connections L) (fun _ => max_connections_per_user L) (max_incomplete_connections L)
+      (fun _ => max_names_per_connection L) (fun _ => max_match_rules_per_connection L) (fun _ => max_replies_per_connection L).
+
+Record covers (B : bounds) (L : limits) : Prop := mkCov {
+  cv_comp : max_completed_connections L <= b_comp B;
+  cv_user : forall u, max_connections_per_user L <= b_user B u;
+  cv_inc : max_incomplete_connections L <= b_inc B;
+  cv_names : forall c, max_names_per_connection L <= b_names B c;
+  cv_rules : forall c, max_match_rules_per_connection L <= b_rules B c;
+  cv_pend : forall c, max_replies_per_connection L <= b_pend B c
 }.
 
-Lemma linv_inv L s : linv L s -> inv (reg L s).
-Proof. intros I. eapply reg_reachable_inv. apply (li_reg _ _ I). Qed.
+Lemma covers_self L : covers (bounds_of L) L.
+Proof. constructor; simpl; intros; lia. Qed.
 
-Lemma linv_nodup L s : linv L s -> NoDup (ids (s_conns s)).
-Proof. intros I. exact (inv_ids _ (linv_inv L s I)). Qed.
+(* the registry part of a state; its invariant (C04) does not mention the limit *)
+Definition reg0 (s : state) : bus := mkBus (s_conns s) (s_services s) (s_next s) 0.
 
-Lemma linv_nodup_cd L s : linv L s -> NoDup (cids (s_cdata s)).
-Proof. intros I. rewrite (li_ids _ _ I). eapply linv_nodup; eauto. Qed.
+Record ginv (B : bounds) (s : state) : Prop := mkGinv {
+  gi_reg : inv (reg0 s);
+  gi_ids : cids (s_cdata s) = ids (s_conns s);
+  gi_bounded : boundedf (b_names B) (s_conns s);
+  gi_ncomp : s_ncomplete s = n_registered s;
+  gi_ninc : s_nincomplete s = n_unregistered s;
+  gi_user : forall u, get_uid (s_byuser s) u = n_registered_of s u;
+  gi_nrules : forall d, In d (s_cdata s) -> d_nrules d = n_rules s (d_id d);
+  gi_rules_live : forall e, In e (s_rules s) -> In (fst e) (ids (s_conns s));
+  gi_comp_le : s_ncomplete s <= b_comp B;
+  gi_inc_le : s_nincomplete s <= b_inc B;
+  gi_user_le : forall u, get_uid (s_byuser s) u <= b_user B u;
+  gi_rules_le : forall d, In d (s_cdata s) -> d_nrules d <= b_rules B (d_id d);
+  gi_pend_le : forall c, n_awaiting s c <= b_pend B c;
+  gi_auth : forall c, registered s c = true -> authenticated s c = true
+}.
+
+Lemma ginv_inv B L s : ginv B s -> inv (reg L s).
+Proof. intros I. exact (inv_relimit _ _ _ _ _ (gi_reg _ _ I)). Qed.
+
+Lemma ginv_nodup B s : ginv B s -> NoDup (ids (s_conns s)).
+Proof. intros I. exact (inv_ids _ (gi_reg _ _ I)). Qed.
+
+Lemma ginv_nodup_cd B s : ginv B s -> NoDup (cids (s_cdata s)).
+Proof. intros I. rewrite (gi_ids _ _ I). eapply ginv_nodup; eauto. Qed.
 
 (* ---- the counts as functions of shapes and uids ------------------------------------------ *)
 Definition uidf (ds : list cdata) (c : N) : N := match find_cd ds c with Some d => d_uid d | None => 0 end.
@@ -71,10 +96,10 @@ Proof.
   - destruct (c_id y =? c'); [reflexivity | exact IH].
 Qed.
 
-Lemma init_linv L : linv L linit.
+Lemma init_ginv B : ginv B linit.
 Proof.
   constructor.
-  - exists []. reflexivity.
+  - apply (inv_relimit _ _ _ 0 0). exact (init_inv 0).
   - reflexivity.
   - intros x [].
   - reflexivity.
@@ -216,57 +241,55 @@ Proof.
 Qed.
 
 (* ---- states that differ in the pending list only ---------------------------------------------------------- *)
-Lemma linv_with_pending L s pl : linv L s ->
-  (forall c, cnt (fun p => p_get p =? c) pl <= max_replies_per_connection L) -> linv L (with_pending s pl).
+Lemma ginv_with_pending B s pl : ginv B s ->
+  (forall c, cnt (fun p => p_get p =? c) pl <= b_pend B c) -> ginv B (with_pending s pl).
 Proof. intros I H. destruct I. constructor; try assumption. Qed.
 
 (* ---- registry events ------------------------------------------------------------------------------------------ *)
-Lemma reg_with_reg L s b : b_limit b = max_names_per_connection L -> reg L (with_reg s b) = b.
-Proof. intros H. unfold reg, with_reg. simpl. rewrite <- H. apply bus_eta. Qed.
-
-Lemma linv_same_shapes L s b :
-  linv L s -> reg_reachable (max_names_per_connection L) b -> shapes (b_conns b) = shapes (s_conns s) ->
-  bounded (max_names_per_connection L) (b_conns b) -> linv L (with_reg s b).
+Lemma ginv_same_shapes B s b :
+  ginv B s -> inv b -> shapes (b_conns b) = shapes (s_conns s) ->
+  boundedf (b_names B) (b_conns b) -> ginv B (with_reg s b).
 Proof.
-  intros I Rb S B. pose proof (reg_reachable_limit _ _ Rb) as Hl.
+  intros I Rb S Bd.
   constructor; simpl.
-  - change (reg_reachable (max_names_per_connection L) (reg L (with_reg s b))). rewrite reg_with_reg by exact Hl. exact Rb.
-  - rewrite (li_ids _ _ I). symmetry. apply shapes_ids. exact S.
-  - exact B.
-  - rewrite (li_ncomp _ _ I), !n_registered_shapes. simpl. rewrite S. reflexivity.
-  - rewrite (li_ninc _ _ I), !n_unregistered_shapes. simpl. rewrite S. reflexivity.
-  - intros u. rewrite (li_user _ _ I), !n_registered_of_shapes. simpl. rewrite S. reflexivity.
-  - exact (li_nrules _ _ I).
-  - intros e He. rewrite (shapes_ids _ _ S). exact (li_rules_live _ _ I e He).
-  - exact (li_comp_le _ _ I).
-  - exact (li_inc_le _ _ I).
-  - exact (li_user_le _ _ I).
-  - exact (li_rules_le _ _ I).
-  - exact (li_pend_le _ _ I).
-  - intros c Hc. rewrite registered_shapes in Hc. simpl in Hc. rewrite S in Hc. rewrite <- registered_shapes in Hc. exact (li_auth _ _ I c Hc).
+  - unfold reg0. simpl. destruct b as [cs ss n l]. simpl. exact (inv_relimit _ _ _ _ _ Rb).
+  - rewrite (gi_ids _ _ I). symmetry. apply shapes_ids. exact S.
+  - exact Bd.
+  - rewrite (gi_ncomp _ _ I), !n_registered_shapes. simpl. rewrite S. reflexivity.
+  - rewrite (gi_ninc _ _ I), !n_unregistered_shapes. simpl. rewrite S. reflexivity.
+  - intros u. rewrite (gi_user _ _ I), !n_registered_of_shapes. simpl. rewrite S. reflexivity.
+  - exact (gi_nrules _ _ I).
+  - intros e He. rewrite (shapes_ids _ _ S). exact (gi_rules_live _ _ I e He).
+  - exact (gi_comp_le _ _ I).
+  - exact (gi_inc_le _ _ I).
+  - exact (gi_user_le _ _ I).
+  - exact (gi_rules_le _ _ I).
+  - exact (gi_pend_le _ _ I).
+  - intros c Hc. rewrite registered_shapes in Hc. simpl in Hc. rewrite S in Hc. rewrite <- registered_shapes in Hc. exact (gi_auth _ _ I c Hc).
 Qed.
 
-Lemma via_registry_linv L s c e :
+Lemma via_registry_ginv B L s c e :
+  covers B L ->
   (exists name flags, e = EvRequest c name flags) \/ (exists name, e = EvRelease c name) ->
-  linv L s -> linv L (fst (via_registry L s c e)).
+  ginv B s -> ginv B (fst (via_registry L s c e)).
 Proof.
-  intros He I. unfold via_registry. destruct (step (reg L s) e) as [b' ro] eqn:Es.
+  intros Cv He I. unfold via_registry. destruct (step (reg L s) e) as [b' ro] eqn:Es.
   destruct (existsb is_fault ro); [exact I|]. simpl.
-  assert (Rb : reg_reachable (max_names_per_connection L) b').
-  { replace b' with (fst (step (reg L s) e)) by (rewrite Es; reflexivity). apply reg_reachable_step. exact (li_reg _ _ I). }
-  assert (Bd : bounded (b_limit (reg L s)) (b_conns (reg L s))) by exact (li_bounded _ _ I).
+  assert (Rb : inv b').
+  { replace b' with (fst (step (reg L s) e)) by (rewrite Es; reflexivity). apply inv_step. exact (ginv_inv B L s I). }
+  assert (Bd : boundedf (b_names B) (b_conns (reg L s))) by exact (gi_bounded _ _ I).
   destruct He as [[name [flags ->]]|[name ->]].
-  - destruct (step_request_conns (reg L s) c name flags Bd) as [S [B _]]. rewrite Es in S, B. simpl in S, B.
-    apply linv_same_shapes; assumption.
-  - destruct (step_release_conns (reg L s) c name Bd) as [S [B _]]. rewrite Es in S, B. simpl in S, B.
-    apply linv_same_shapes; assumption.
+  - destruct (step_request_conns (reg L s) c name flags (b_names B) (cv_names _ _ Cv) Bd) as [S [Bd' _]]. rewrite Es in S, Bd'. simpl in S, Bd'.
+    apply ginv_same_shapes; assumption.
+  - destruct (step_release_conns (reg L s) c name (b_names B) Bd) as [S [Bd' _]]. rewrite Es in S, Bd'. simpl in S, Bd'.
+    apply ginv_same_shapes; assumption.
 Qed.
 
 (* ---- Connect ----------------------------------------------------------------------------------------------------- *)
-Lemma fresh_next L s : linv L s -> ~ In (s_next s) (ids (s_conns s)).
+Lemma fresh_next B s : ginv B s -> ~ In (s_next s) (ids (s_conns s)).
 Proof.
   intros I H. unfold ids in H. apply in_map_iff in H. destruct H as [x [E Hx]].
-  pose proof (inv_next _ (linv_inv L s I) x Hx) as Hn. simpl in Hn. lia.
+  pose proof (inv_next _ (gi_reg _ _ I) x Hx) as Hn. simpl in Hn. lia.
 Qed.
 
 Lemma ids_app cs x : ids (cs ++ [x]) = ids cs ++ [c_id x].
@@ -278,34 +301,35 @@ Proof. change (cnt p (l ++ [x]) = cnt p l + b2n (p x)). rewrite cnt_app. unfold 
 Lemma nlen_filter_ext {A} (p q : A -> bool) l : (forall x, In x l -> p x = q x) -> nlen (filter p l) = nlen (filter q l).
 Proof. exact (cnt_ext p q l). Qed.
 
-Lemma connect_linv L s uid : linv L s -> linv L (fst (lstep L s (Connect uid))).
+Lemma connect_ginv B L s uid : covers B L -> ginv B s -> ginv B (fst (lstep L s (Connect uid))).
 Proof.
-  intros I. cbn [lstep]. destruct (max_incomplete_connections L <=? s_nincomplete s) eqn:E; [exact I|]. apply N.leb_gt in E.
+  intros Cv I. cbn [lstep]. destruct (negb (s_watches s)); [exact I|].
+  destruct (max_incomplete_connections L <? s_nincomplete s + 1) eqn:E; [exact I|]. apply N.ltb_ge in E.
   cbn [step reg b_conns b_services b_next b_limit fst].
-  pose proof (fresh_next L s I) as Hfresh.
+  pose proof (fresh_next B s I) as Hfresh.
   set (new := mkConn (s_next s) false false []).
-  assert (Huid : forall x, In x (s_conns s) -> uidf (s_cdata s ++ [mkCd (s_next s) uid 0 false]) (c_id x) = uidf (s_cdata s) (c_id x)).
-  { intros x Hx. apply uidf_app_old. rewrite (li_ids _ _ I). unfold ids. apply in_map. exact Hx. }
+  assert (Huid : forall x, In x (s_conns s) -> uidf (s_cdata s ++ [mkCd (s_next s) uid 0 false (loader_max L)]) (c_id x) = uidf (s_cdata s) (c_id x)).
+  { intros x Hx. apply uidf_app_old. rewrite (gi_ids _ _ I). unfold ids. apply in_map. exact Hx. }
   constructor; cbn [s_conns s_services s_next s_cdata s_rules s_pending s_ncomplete s_nincomplete s_byuser].
-  - replace (reg L _) with (fst (step (reg L s) EvConnect)) by reflexivity. apply reg_reachable_step. exact (li_reg _ _ I).
-  - unfold cids. rewrite map_app, ids_app. simpl. fold (cids (s_cdata s)). rewrite (li_ids _ _ I). reflexivity.
-  - intros x Hx. apply in_app_or in Hx. destruct Hx as [Hx|[<-|[]]]; [exact (li_bounded _ _ I x Hx)|]. simpl. unfold nlen. simpl. lia.
-  - rewrite (li_ncomp _ _ I). unfold n_registered. cbn [s_conns]. rewrite nlen_filter_snoc. simpl. lia.
-  - rewrite (li_ninc _ _ I). unfold n_unregistered. cbn [s_conns]. rewrite nlen_filter_snoc. simpl. lia.
-  - intros u. rewrite (li_user _ _ I). unfold n_registered_of, uid_of. cbn [s_conns s_cdata].
+  - pose proof (inv_step (reg0 s) EvConnect (gi_reg _ _ I)) as H. exact H.
+  - unfold cids. rewrite map_app, ids_app. simpl. fold (cids (s_cdata s)). rewrite (gi_ids _ _ I). reflexivity.
+  - intros x Hx. apply in_app_or in Hx. destruct Hx as [Hx|[<-|[]]]; [exact (gi_bounded _ _ I x Hx)|]. simpl. unfold nlen. simpl. lia.
+  - rewrite (gi_ncomp _ _ I). unfold n_registered. cbn [s_conns]. rewrite nlen_filter_snoc. simpl. lia.
+  - rewrite (gi_ninc _ _ I). unfold n_unregistered. cbn [s_conns]. rewrite nlen_filter_snoc. simpl. lia.
+  - intros u. rewrite (gi_user _ _ I). unfold n_registered_of, uid_of. cbn [s_conns s_cdata].
     rewrite nlen_filter_snoc. simpl. rewrite N.add_0_r. apply nlen_filter_ext. intros x Hx.
     pose proof (Huid x Hx) as Hu. unfold uidf in Hu. rewrite Hu. reflexivity.
-  - intros d Hd. apply in_app_or in Hd. unfold n_rules. cbn [s_rules]. destruct Hd as [Hd|[<-|[]]]; [exact (li_nrules _ _ I d Hd)|].
+  - intros d Hd. apply in_app_or in Hd. unfold n_rules. cbn [s_rules]. destruct Hd as [Hd|[<-|[]]]; [exact (gi_nrules _ _ I d Hd)|].
     simpl. symmetry. apply (cnt_zero (fun e => fst e =? s_next s) (s_rules s)). intros e He.
-    apply N.eqb_neq. intros Eq. apply Hfresh. rewrite <- Eq. exact (li_rules_live _ _ I e He).
-  - intros e He. rewrite ids_app. apply in_or_app. left. exact (li_rules_live _ _ I e He).
-  - exact (li_comp_le _ _ I).
-  - lia.
-  - exact (li_user_le _ _ I).
-  - intros d Hd. apply in_app_or in Hd. destruct Hd as [Hd|[<-|[]]]; [exact (li_rules_le _ _ I d Hd)|]. simpl. lia.
-  - exact (li_pend_le _ _ I).
+    apply N.eqb_neq. intros Eq. apply Hfresh. rewrite <- Eq. exact (gi_rules_live _ _ I e He).
+  - intros e He. rewrite ids_app. apply in_or_app. left. exact (gi_rules_live _ _ I e He).
+  - exact (gi_comp_le _ _ I).
+  - pose proof (cv_inc _ _ Cv). lia.
+  - exact (gi_user_le _ _ I).
+  - intros d Hd. apply in_app_or in Hd. destruct Hd as [Hd|[<-|[]]]; [exact (gi_rules_le _ _ I d Hd)|]. simpl. lia.
+  - exact (gi_pend_le _ _ I).
   - intros c. unfold registered, authenticated. cbn [s_conns s_cdata]. rewrite find_conn_app, find_cd_app.
-    pose proof (li_auth _ _ I c) as A. unfold registered, authenticated in A.
+    pose proof (gi_auth _ _ I c) as A. unfold registered, authenticated in A.
     destruct (find_conn (s_conns s) c) as [x|] eqn:Hf.
     + intros Hx. specialize (A Hx). destruct (find_cd (s_cdata s) c); [exact A | discriminate A].
     + unfold new. simpl. destruct (s_next s =? c); discriminate.
@@ -317,9 +341,9 @@ Proof.
   intros H. induction cs as [|x cs IH]; [reflexivity|]. simpl. destruct (c_id x =? c); simpl; [rewrite H | rewrite IH]; reflexivity.
 Qed.
 
-Lemma hello_linv L s c : 1 <= max_names_per_connection L -> linv L s -> linv L (fst (lstep L s (Hello c))).
+Lemma hello_ginv B L s c : covers B L -> 1 <= max_names_per_connection L -> ginv B s -> ginv B (fst (lstep L s (Hello c))).
 Proof.
-  intros Hpos I. cbn [lstep].
+  intros Cv Hpos I. cbn [lstep].
   destruct (find_conn (s_conns s) c) as [cn|] eqn:Hf; [|exact I].
   destruct (find_cd (s_cdata s) c) as [d|] eqn:Hd; [|exact I].
   destruct (d_auth d) eqn:Hau; cbn [negb]; [|exact I].
@@ -334,42 +358,42 @@ Proof.
   set (act := fun x : conn => mkConn (c_id x) true (c_match x) (c_owned x ++ [KU c])) in *.
   assert (Hcid : c_id cn = c) by (apply find_conn_in in Hf; tauto).
   assert (Hown : c_owned cn = []).
-  { pose proof (inv_active _ (linv_inv L s I) cn) as X. simpl in X. apply find_conn_in in Hf. specialize (X (proj1 Hf)). rewrite Ha in X. exact X. }
+  { pose proof (inv_active _ (ginv_inv B L s I) cn) as X. simpl in X. apply find_conn_in in Hf. specialize (X (proj1 Hf)). rewrite Ha in X. exact X. }
   assert (Huidc : uidf (s_cdata s) c = d_uid d) by (unfold uidf; rewrite Hd; reflexivity).
   pose proof (cnt_upd_conn c_active (s_conns s) c act cn Hf) as X1.
   pose proof (cnt_upd_conn (fun x => negb (c_active x)) (s_conns s) c act cn Hf) as X2.
   unfold cnt in X1, X2. simpl in X1, X2. rewrite Ha in X1, X2. simpl in X1, X2.
   constructor; cbn [s_conns s_services s_next s_cdata s_rules s_pending s_ncomplete s_nincomplete s_byuser].
-  - assert (Hl : b_limit b' = max_names_per_connection L).
-    { replace b' with (fst (step (reg L s) (EvHello c))) by (rewrite Es; reflexivity). rewrite step_limit. reflexivity. }
-    replace (reg L _) with b' by (unfold reg; simpl; rewrite <- Hl; symmetry; apply bus_eta).
-    replace b' with (fst (step (reg L s) (EvHello c))) by (rewrite Es; reflexivity). apply reg_reachable_step. exact (li_reg _ _ I).
-  - rewrite Hc, ids_upd_conn by reflexivity. exact (li_ids _ _ I).
-  - rewrite Hc. intros y Hy. apply upd_conn_in in Hy. destruct Hy as [Hy|[x [Hx ->]]]; [exact (li_bounded _ _ I y Hy)|].
-    rewrite Hf in Hx. inversion Hx; subst x. simpl. rewrite Hown. unfold nlen. simpl. lia.
-  - rewrite (li_ncomp _ _ I). unfold n_registered. cbn [s_conns]. rewrite Hc. lia.
-  - rewrite (li_ninc _ _ I). unfold n_unregistered. cbn [s_conns]. rewrite Hc. lia.
+  - assert (Ib : inv b').
+    { replace b' with (fst (step (reg L s) (EvHello c))) by (rewrite Es; reflexivity). apply inv_step. exact (ginv_inv B L s I). }
+    rewrite <- (bus_eta b') in Ib. exact (inv_relimit _ _ _ _ _ Ib).
+  - rewrite Hc, ids_upd_conn by reflexivity. exact (gi_ids _ _ I).
+  - rewrite Hc. intros y Hy. apply upd_conn_in in Hy. destruct Hy as [Hy|[x [Hx ->]]]; [exact (gi_bounded _ _ I y Hy)|].
+    rewrite Hf in Hx. inversion Hx; subst x. simpl. rewrite Hown. unfold nlen. simpl. pose proof (cv_names _ _ Cv (c_id cn)). lia.
+  - rewrite (gi_ncomp _ _ I). unfold n_registered. cbn [s_conns]. rewrite Hc. lia.
+  - rewrite (gi_ninc _ _ I). unfold n_unregistered. cbn [s_conns]. rewrite Hc. lia.
   - intros u. rewrite get_set_uid. unfold n_registered_of, uid_of. cbn [s_conns s_cdata]. rewrite Hc.
     pose proof (cnt_upd_conn (fun x => c_active x && (uidf (s_cdata s) (c_id x) =? u)) (s_conns s) c act cn Hf) as X3.
     unfold cnt, uidf in X3. simpl in X3. rewrite Ha, Hcid in X3. simpl in X3. unfold uidf in Huidc. rewrite Huidc in X3.
     destruct (u =? d_uid d) eqn:Eu.
-    + apply N.eqb_eq in Eu. subst u. rewrite (li_user _ _ I (d_uid d)). unfold n_registered_of, uid_of. rewrite N.eqb_refl in X3. simpl in X3. lia.
-    + rewrite (li_user _ _ I u). unfold n_registered_of, uid_of. rewrite N.eqb_sym in Eu. rewrite Eu in X3. simpl in X3. lia.
-  - exact (li_nrules _ _ I).
-  - intros e He. rewrite Hc, ids_upd_conn by reflexivity. exact (li_rules_live _ _ I e He).
-  - lia.
-  - pose proof (li_inc_le _ _ I). lia.
-  - intros u. rewrite get_set_uid. destruct (u =? d_uid d) eqn:Eu; [lia | exact (li_user_le _ _ I u)].
-  - exact (li_rules_le _ _ I).
-  - exact (li_pend_le _ _ I).
+    + apply N.eqb_eq in Eu. subst u. rewrite (gi_user _ _ I (d_uid d)). unfold n_registered_of, uid_of. rewrite N.eqb_refl in X3. simpl in X3. lia.
+    + rewrite (gi_user _ _ I u). unfold n_registered_of, uid_of. rewrite N.eqb_sym in Eu. rewrite Eu in X3. simpl in X3. lia.
+  - exact (gi_nrules _ _ I).
+  - intros e He. rewrite Hc, ids_upd_conn by reflexivity. exact (gi_rules_live _ _ I e He).
+  - pose proof (cv_comp _ _ Cv). lia.
+  - pose proof (gi_inc_le _ _ I). lia.
+  - intros u. rewrite get_set_uid. destruct (u =? d_uid d) eqn:Eu; [|exact (gi_user_le _ _ I u)].
+    apply N.eqb_eq in Eu. subst u. pose proof (cv_user _ _ Cv (d_uid d)). lia.
+  - exact (gi_rules_le _ _ I).
+  - exact (gi_pend_le _ _ I).
   - intros c'. unfold registered, authenticated. cbn [s_conns s_cdata]. rewrite Hc.
     destruct (N.eq_dec c' c) as [->|Hne].
     + intros _. rewrite Hd. exact Hau.
-    + rewrite find_conn_upd_other by (auto; reflexivity). exact (li_auth _ _ I c').
+    + rewrite find_conn_upd_other by (auto; reflexivity). exact (gi_auth _ _ I c').
 Qed.
 
 (* ---- disconnection (by the client or by the bus) ------------------------------------------------------------------------ *)
-Lemma disconnect_linv L s c byb : linv L s -> linv L (fst (disconnect L s c byb)).
+Lemma disconnect_ginv B L s c byb : ginv B s -> ginv B (fst (disconnect L s c byb)).
 Proof.
   intros I. unfold disconnect.
   destruct (find_conn (s_conns s) c) as [cn|] eqn:Hf; [|exact I].
@@ -377,9 +401,9 @@ Proof.
   destruct (step (reg L s) (EvDisconnect c)) as [b' ro] eqn:Es.
   destruct (existsb is_fault ro) eqn:Ef; [exact I|].
   destruct (drop_pending (s_pending s) c) as [pl po] eqn:Ep. cbn [fst].
-  destruct (step_disconnect _ _ _ _ (max_names_per_connection L) Es Ef) as [cn' [Hf' [S [Hn Bd]]]].
+  destruct (step_disconnect _ _ _ _ (b_names B) Es Ef) as [cn' [Hf' [S [Hn Bd]]]].
   simpl in Hf', S, Hn, Bd. rewrite Hf in Hf'. inversion Hf'; subst cn'. clear Hf'.
-  pose proof (linv_nodup L s I) as Nd. pose proof (linv_nodup_cd L s I) as Ndc.
+  pose proof (ginv_nodup B s I) as Nd. pose proof (ginv_nodup_cd B s I) as Ndc.
   assert (Nds : NoDup (map fst (shapes (s_conns s)))) by (rewrite <- ids_shapes; exact Nd).
   assert (Hfs : find_shape (shapes (s_conns s)) c = Some (c_active cn)) by (rewrite find_shape_conn, Hf; reflexivity).
   assert (Huidc : uidf (s_cdata s) c = d_uid d) by (unfold uidf; rewrite Hd; reflexivity).
@@ -387,61 +411,60 @@ Proof.
   { rewrite !ids_shapes, S. apply fst_del_shape. }
   pose proof (cnt_del_shape (fun p => snd p) _ _ _ Hfs) as X1.
   pose proof (cnt_del_shape (fun p => negb (snd p)) _ _ _ Hfs) as X2. cbn [snd] in X1, X2.
-  pose proof (li_ncomp _ _ I) as C1. pose proof (li_ninc _ _ I) as C2. rewrite n_registered_shapes in C1. rewrite n_unregistered_shapes in C2.
+  pose proof (gi_ncomp _ _ I) as C1. pose proof (gi_ninc _ _ I) as C2. rewrite n_registered_shapes in C1. rewrite n_unregistered_shapes in C2.
   constructor; cbn [s_conns s_services s_next s_cdata s_rules s_pending s_ncomplete s_nincomplete s_byuser].
-  - assert (Hl : b_limit b' = max_names_per_connection L).
-    { replace b' with (fst (step (reg L s) (EvDisconnect c))) by (rewrite Es; reflexivity). rewrite step_limit. reflexivity. }
-    replace (reg L _) with b' by (unfold reg; simpl; rewrite <- Hl; symmetry; apply bus_eta).
-    replace b' with (fst (step (reg L s) (EvDisconnect c))) by (rewrite Es; reflexivity). apply reg_reachable_step. exact (li_reg _ _ I).
-  - rewrite cids_del_cd, Hids, (li_ids _ _ I). reflexivity.
-  - apply Bd. exact (li_bounded _ _ I).
+  - assert (Ib : inv b').
+    { replace b' with (fst (step (reg L s) (EvDisconnect c))) by (rewrite Es; reflexivity). apply inv_step. exact (ginv_inv B L s I). }
+    rewrite <- (bus_eta b') in Ib. exact (inv_relimit _ _ _ _ _ Ib).
+  - rewrite cids_del_cd, Hids, (gi_ids _ _ I). reflexivity.
+  - apply Bd. exact (gi_bounded _ _ I).
   - rewrite n_registered_shapes. cbn [s_conns]. rewrite S. destruct (c_active cn); simpl in X1; lia.
   - rewrite n_unregistered_shapes. cbn [s_conns]. rewrite S. destruct (c_active cn); simpl in X2; lia.
   - intros u. rewrite n_registered_of_shapes. cbn [s_conns s_cdata]. rewrite S.
     rewrite (cnt_ext _ (fun p => snd p && (uidf (s_cdata s) (fst p) =? u)) (del_shape (shapes (s_conns s)) c)).
     2:{ intros p Hp. rewrite uidf_del_other; [reflexivity|]. eapply del_shape_ne; eauto. }
     pose proof (cnt_del_shape (fun p => snd p && (uidf (s_cdata s) (fst p) =? u)) _ _ _ Hfs) as X3. cbn [fst snd] in X3. rewrite Huidc in X3.
-    pose proof (li_user _ _ I u) as C3. rewrite n_registered_of_shapes in C3.
+    pose proof (gi_user _ _ I u) as C3. rewrite n_registered_of_shapes in C3.
     destruct (c_active cn); simpl in X3.
     + rewrite get_set_uid. destruct (u =? d_uid d) eqn:Eu.
       * apply N.eqb_eq in Eu. subst u. rewrite N.eqb_refl in X3. simpl in X3. lia.
       * rewrite N.eqb_sym in Eu. rewrite Eu in X3. simpl in X3. lia.
     + lia.
-  - intros x Hx. pose proof (del_cd_ne _ _ _ Ndc Hx) as Hne. apply del_cd_in in Hx. rewrite (li_nrules _ _ I x Hx).
+  - intros x Hx. pose proof (del_cd_ne _ _ _ Ndc Hx) as Hne. apply del_cd_in in Hx. rewrite (gi_nrules _ _ I x Hx).
     unfold n_rules. cbn [s_rules]. symmetry.
     apply (cnt_filter_other (fun e => fst e =? d_id x) (fun e => negb (fst e =? c)) (s_rules s)).
     intros e He. apply N.eqb_eq in He. rewrite He. apply negb_true_iff. apply N.eqb_neq. exact Hne.
   - intros e He. apply filter_In in He. destruct He as [He Hne]. rewrite Hids. apply del_id_other.
     + apply negb_true_iff in Hne. apply N.eqb_neq in Hne. exact Hne.
-    + exact (li_rules_live _ _ I e He).
-  - pose proof (li_comp_le _ _ I). destruct (c_active cn); lia.
-  - pose proof (li_inc_le _ _ I). destruct (c_active cn); lia.
-  - intros u. pose proof (li_user_le _ _ I u). destruct (c_active cn); [|assumption]. rewrite get_set_uid.
-    destruct (u =? d_uid d) eqn:Eu; [|assumption]. pose proof (li_user_le _ _ I (d_uid d)). lia.
-  - intros x Hx. apply del_cd_in in Hx. exact (li_rules_le _ _ I x Hx).
+    + exact (gi_rules_live _ _ I e He).
+  - pose proof (gi_comp_le _ _ I). destruct (c_active cn); lia.
+  - pose proof (gi_inc_le _ _ I). destruct (c_active cn); lia.
+  - intros u. pose proof (gi_user_le _ _ I u). destruct (c_active cn); [|assumption]. rewrite get_set_uid.
+    destruct (u =? d_uid d) eqn:Eu; [|assumption]. apply N.eqb_eq in Eu. subst u. lia.
+  - intros x Hx. apply del_cd_in in Hx. exact (gi_rules_le _ _ I x Hx).
   - intros g. unfold n_awaiting. cbn [s_pending]. pose proof (drop_pending_cnt (fun p => p_get p =? g) (s_pending s) c) as X.
-    rewrite Ep in X. simpl in X. unfold cnt in X. pose proof (li_pend_le _ _ I g) as Y. unfold n_awaiting in Y. lia.
+    rewrite Ep in X. simpl in X. unfold cnt in X. pose proof (gi_pend_le _ _ I g) as Y. unfold n_awaiting in Y. lia.
   - intros c'. rewrite registered_shapes. cbn [s_conns]. rewrite S. unfold authenticated. cbn [s_cdata].
     destruct (N.eq_dec c' c) as [->|Hne].
     + rewrite find_shape_del_same by exact Nds. discriminate.
-    + rewrite find_shape_del by exact Hne. rewrite find_cd_del_other by exact Hne. rewrite <- registered_shapes. exact (li_auth _ _ I c').
+    + rewrite find_shape_del by exact Hne. rewrite find_cd_del_other by exact Hne. rewrite <- registered_shapes. exact (gi_auth _ _ I c').
 Qed.
 
 (* ---- AddMatch / RemoveMatch ------------------------------------------------------------------------------------------------ *)
-Lemma linv_with_rules L s ds rl :
-  linv L s -> cids ds = cids (s_cdata s) -> (forall c, uidf ds c = uidf (s_cdata s) c) ->
-  (forall d, In d ds -> d_nrules d = cnt (fun e => fst e =? d_id d) rl /\ d_nrules d <= max_match_rules_per_connection L) ->
+Lemma ginv_with_rules B s ds rl :
+  ginv B s -> cids ds = cids (s_cdata s) -> (forall c, uidf ds c = uidf (s_cdata s) c) ->
+  (forall d, In d ds -> d_nrules d = cnt (fun e => fst e =? d_id d) rl /\ d_nrules d <= b_rules B (d_id d)) ->
   (forall e, In e rl -> In (fst e) (ids (s_conns s))) ->
   (forall c, authf (s_cdata s) c = true -> authf ds c = true) ->
-  linv L (with_rules s ds rl).
+  ginv B (with_rules s ds rl).
 Proof.
   intros I Hc Hu Hr Hl Hau. destruct I. constructor; cbn [with_rules s_conns s_services s_next s_cdata s_rules s_pending s_ncomplete s_nincomplete s_byuser]; try assumption.
   - rewrite Hc. assumption.
-  - intros u. rewrite li_user0. unfold n_registered_of, uid_of. cbn [with_rules s_conns s_cdata]. apply nlen_filter_ext. intros x _.
+  - intros u. rewrite gi_user0. unfold n_registered_of, uid_of. cbn [with_rules s_conns s_cdata]. apply nlen_filter_ext. intros x _.
     pose proof (Hu (c_id x)) as E. unfold uidf in E. rewrite E. reflexivity.
   - intros d Hd. exact (proj1 (Hr d Hd)).
   - intros d Hd. exact (proj2 (Hr d Hd)).
-  - intros c Hc'. apply (Hau c). exact (li_auth0 c Hc').
+  - intros c Hc'. apply (Hau c). exact (gi_auth0 c Hc').
 Qed.
 
 Lemma authf_upd_same ds c f c' : (forall d, d_id (f d) = d_id d) -> (forall d, d_auth d = true -> d_auth (f d) = true) ->
@@ -451,21 +474,21 @@ Proof.
   destruct (d_id d =? c); auto.
 Qed.
 
-Lemma addmatch_linv L s c r : linv L s -> linv L (fst (lstep L s (AddMatch c r))).
+Lemma addmatch_ginv B L s c r : covers B L -> ginv B s -> ginv B (fst (lstep L s (AddMatch c r))).
 Proof.
-  intros I. cbn [lstep].
+  intros Cv I. cbn [lstep].
   destruct (find_conn (s_conns s) c) as [cn|] eqn:Hf; [|exact I].
   destruct (find_cd (s_cdata s) c) as [d|] eqn:Hd; [|exact I].
   destruct (negb (c_active cn)); [exact I|].
   destruct (max_match_rules_per_connection L <=? d_nrules d) eqn:E; [exact I|]. apply N.leb_gt in E.
   destruct r as [r|]; [|exact I]. cbn [fst].
-  pose proof (linv_nodup_cd L s I) as Ndc.
-  set (f := fun x : cdata => mkCd (d_id x) (d_uid x) (d_nrules x + 1) (d_auth x)).
+  pose proof (ginv_nodup_cd B s I) as Ndc.
+  set (f := fun x : cdata => mkCd (d_id x) (d_uid x) (d_nrules x + 1) (d_auth x) (d_maxmsg x)).
   assert (Hdid : d_id d = c) by (apply find_cd_in in Hd; tauto).
-  apply linv_with_rules; [exact I | apply cids_upd_cd; reflexivity | intros c'; apply uidf_upd_cd; reflexivity | | | intros c'; apply authf_upd_same; auto].
+  apply ginv_with_rules; [exact I | apply cids_upd_cd; reflexivity | intros c'; apply uidf_upd_cd; reflexivity | | | intros c'; apply authf_upd_same; auto].
   - intros y Hy. rewrite (upd_cd_map _ _ f) in Hy by (auto; reflexivity). apply in_map_iff in Hy. destruct Hy as [x [<- Hx]].
-    rewrite cnt_cons. cbn [fst]. pose proof (li_nrules _ _ I x Hx) as Hn. unfold n_rules in Hn. fold (cnt (fun e => fst e =? d_id x) (s_rules s)) in Hn.
-    pose proof (li_rules_le _ _ I x Hx) as Hle.
+    rewrite cnt_cons. cbn [fst]. pose proof (gi_nrules _ _ I x Hx) as Hn. unfold n_rules in Hn. fold (cnt (fun e => fst e =? d_id x) (s_rules s)) in Hn.
+    pose proof (gi_rules_le _ _ I x Hx) as Hle.
     destruct (d_id x =? c) eqn:Ex.
     + apply N.eqb_eq in Ex. assert (x = d).
       { destruct (find_cd_in _ _ _ Hd) as [Hin _]. clear - Ndc Hx Hin Ex Hdid.
@@ -474,9 +497,9 @@ Proof.
           - exfalso. apply H1. unfold cids. apply in_map_iff. exists b. auto.
           - exfalso. apply H1. unfold cids. apply in_map_iff. exists a. auto. }
         apply (G (s_cdata s)); auto. congruence. }
-      subst x. unfold f. simpl. rewrite Hdid, N.eqb_refl. simpl. rewrite Hdid in Hn. split; lia.
+      subst x. unfold f. simpl. rewrite Hdid, N.eqb_refl. simpl. rewrite Hdid in Hn. pose proof (cv_rules _ _ Cv c). split; lia.
     + simpl. rewrite N.eqb_sym, Ex. simpl. split; lia.
-  - intros e [<-|He]; [|exact (li_rules_live _ _ I e He)]. simpl. apply find_conn_in in Hf. destruct Hf as [Hin <-]. unfold ids. apply in_map. exact Hin.
+  - intros e [<-|He]; [|exact (gi_rules_live _ _ I e He)]. simpl. apply find_conn_in in Hf. destruct Hf as [Hin <-]. unfold ids. apply in_map. exact Hin.
 Qed.
 
 Lemma nodup_cd_eq (l : list cdata) a b : NoDup (cids l) -> In a l -> In b l -> d_id a = d_id b -> a = b.
@@ -486,7 +509,7 @@ Proof.
   - exfalso. apply H1. unfold cids. apply in_map_iff. exists a. auto.
 Qed.
 
-Lemma removematch_linv L s c r : linv L s -> linv L (fst (lstep L s (RemoveMatch c r))).
+Lemma removematch_ginv B L s c r : ginv B s -> ginv B (fst (lstep L s (RemoveMatch c r))).
 Proof.
   intros I. cbn [lstep].
   destruct (find_conn (s_conns s) c) as [cn|] eqn:Hf; [|exact I].
@@ -494,63 +517,176 @@ Proof.
   destruct (negb (c_active cn)); [exact I|].
   destruct r as [r|]; [|exact I].
   destruct (remove_rule (s_rules s) c r) as [rl|] eqn:Er; [|exact I]. cbn [fst].
-  pose proof (linv_nodup_cd L s I) as Ndc.
-  set (f := fun x : cdata => mkCd (d_id x) (d_uid x) (d_nrules x - 1) (d_auth x)).
+  pose proof (ginv_nodup_cd B s I) as Ndc.
+  set (f := fun x : cdata => mkCd (d_id x) (d_uid x) (d_nrules x - 1) (d_auth x) (d_maxmsg x)).
   assert (Hdid : d_id d = c) by (apply find_cd_in in Hd; tauto).
-  apply linv_with_rules; [exact I | apply cids_upd_cd; reflexivity | intros c'; apply uidf_upd_cd; reflexivity | | | intros c'; apply authf_upd_same; auto].
+  apply ginv_with_rules; [exact I | apply cids_upd_cd; reflexivity | intros c'; apply uidf_upd_cd; reflexivity | | | intros c'; apply authf_upd_same; auto].
   - intros y Hy. rewrite (upd_cd_map _ _ f) in Hy by (auto; reflexivity). apply in_map_iff in Hy. destruct Hy as [x [<- Hx]].
-    pose proof (li_nrules _ _ I x Hx) as Hn. unfold n_rules in Hn. fold (cnt (fun e => fst e =? d_id x) (s_rules s)) in Hn.
-    pose proof (li_rules_le _ _ I x Hx) as Hle.
+    pose proof (gi_nrules _ _ I x Hx) as Hn. unfold n_rules in Hn. fold (cnt (fun e => fst e =? d_id x) (s_rules s)) in Hn.
+    pose proof (gi_rules_le _ _ I x Hx) as Hle.
     pose proof (remove_rule_cnt _ _ _ _ (d_id x) Er) as Hc.
     destruct (d_id x =? c) eqn:Ex.
     + apply N.eqb_eq in Ex. unfold f. simpl. rewrite N.eqb_sym in Hc. rewrite <- Ex, N.eqb_refl in Hc. simpl in Hc. split; lia.
     + rewrite N.eqb_sym, Ex in Hc. simpl in Hc. split; lia.
-  - intros e He. apply (li_rules_live _ _ I e). eapply remove_rule_in; eauto.
+  - intros e He. apply (gi_rules_live _ _ I e). eapply remove_rule_in; eauto.
 Qed.
 
 (* ---- the whole step -------------------------------------------------------------------------------------------------------------- *)
-Theorem lstep_linv L s e : 1 <= max_names_per_connection L -> linv L s -> linv L (fst (lstep L s e)).
+Theorem lstep_ginv B L s e : covers B L -> 1 <= max_names_per_connection L -> ginv B s -> ginv B (fst (lstep L s e)).
 Proof.
-  intros Hpos I. destruct e.
-  - apply connect_linv; assumption.
+  intros Cv Hpos I. destruct e.
+  - apply connect_ginv; assumption.
   - cbn [lstep]. destruct (find_cd (s_cdata s) c) as [d|] eqn:Hd; [|exact I]. destruct (d_auth d); [exact I|]. cbn [fst].
-    pose proof (linv_nodup_cd L s I) as Ndc.
-    set (f := fun x : cdata => mkCd (d_id x) (d_uid x) (d_nrules x) true).
-    apply linv_with_rules; [exact I | apply cids_upd_cd; reflexivity | intros c'; apply uidf_upd_cd; reflexivity | | exact (li_rules_live _ _ I) | intros c'; apply authf_upd_same; auto].
+    pose proof (ginv_nodup_cd B s I) as Ndc.
+    set (f := fun x : cdata => mkCd (d_id x) (d_uid x) (d_nrules x) true (d_maxmsg x)).
+    apply ginv_with_rules; [exact I | apply cids_upd_cd; reflexivity | intros c'; apply uidf_upd_cd; reflexivity | | exact (gi_rules_live _ _ I) | intros c'; apply authf_upd_same; auto].
     intros y Hy. rewrite (upd_cd_map _ _ f) in Hy by (auto; reflexivity). apply in_map_iff in Hy. destruct Hy as [x [<- Hx]].
-    pose proof (li_nrules _ _ I x Hx) as Hn. unfold n_rules in Hn. pose proof (li_rules_le _ _ I x Hx) as Hle.
+    pose proof (gi_nrules _ _ I x Hx) as Hn. unfold n_rules in Hn. pose proof (gi_rules_le _ _ I x Hx) as Hle.
     destruct (d_id x =? c); unfold cnt; simpl; split; assumption.
-  - apply hello_linv; assumption.
-  - apply disconnect_linv; assumption.
-  - apply via_registry_linv; [left; eauto | assumption].
-  - apply via_registry_linv; [right; eauto | assumption].
-  - apply addmatch_linv; assumption.
-  - apply removematch_linv; assumption.
+  - apply hello_ginv; assumption.
+  - apply disconnect_ginv; assumption.
+  - apply via_registry_ginv; [assumption | left; eauto | assumption].
+  - apply via_registry_ginv; [assumption | right; eauto | assumption].
+  - apply addmatch_ginv; assumption.
+  - apply removematch_ginv; assumption.
   - cbn [lstep]. destruct (find_conn (s_conns s) c) as [cn|]; [|exact I].
-    destruct (negb (c_active cn)); [apply disconnect_linv; exact I|].
+    destruct (negb (c_active cn)); [apply disconnect_ginv; exact I|].
     destruct (negb (is_active s d)); [exact I|].
     set (pl := if rserial =? 0 then s_pending s else check_reply (s_pending s) d c rserial).
-    assert (Hpl : forall g, cnt (fun p => p_get p =? g) pl <= max_replies_per_connection L).
-    { intros g. pose proof (li_pend_le _ _ I g) as Y. unfold n_awaiting in Y. unfold pl. destruct (rserial =? 0); [exact Y|].
+    assert (Hpl : forall g, cnt (fun p => p_get p =? g) pl <= b_pend B g).
+    { intros g. pose proof (gi_pend_le _ _ I g) as Y. unfold n_awaiting in Y. unfold pl. destruct (rserial =? 0); [exact Y|].
       pose proof (check_reply_cnt (fun p => p_get p =? g) (s_pending s) d c rserial). unfold cnt in *. lia. }
-    destruct noreply; [cbn [fst]; apply linv_with_pending; assumption|].
-    destruct (expect_scan pl c d serial 0) as [count|] eqn:Ex; [|cbn [fst]; apply linv_with_pending; assumption].
-    destruct (max_replies_per_connection L <=? count) eqn:El; [cbn [fst]; apply linv_with_pending; assumption|]. apply N.leb_gt in El. cbn [fst].
-    apply linv_with_pending; [exact I|]. intros g. rewrite cnt_cons. cbn [p_get].
+    destruct noreply; [cbn [fst]; apply ginv_with_pending; assumption|].
+    destruct (expect_scan pl c d serial 0) as [count|] eqn:Ex; [|cbn [fst]; apply ginv_with_pending; assumption].
+    destruct (max_replies_per_connection L <=? count) eqn:El; [cbn [fst]; apply ginv_with_pending; assumption|]. apply N.leb_gt in El. cbn [fst].
+    apply ginv_with_pending; [exact I|]. intros g. rewrite cnt_cons. cbn [p_get].
     apply expect_scan_count in Ex. specialize (Hpl g).
-    destruct (c =? g) eqn:Ec; simpl; [|lia]. apply N.eqb_eq in Ec. subst g. lia.
+    destruct (c =? g) eqn:Ec; simpl; [|lia]. apply N.eqb_eq in Ec. subst g. pose proof (cv_pend _ _ Cv c). lia.
   - cbn [lstep]. destruct (find_conn (s_conns s) d) as [dn|]; [|exact I].
-    destruct (negb (c_active dn)); [apply disconnect_linv; exact I|].
+    destruct (negb (c_active dn)); [apply disconnect_ginv; exact I|].
     destruct (negb (is_active s c)); [exact I|]. cbn [fst].
-    apply linv_with_pending; [exact I|]. intros g.
-    pose proof (check_reply_cnt (fun p => p_get p =? g) (s_pending s) c d serial). pose proof (li_pend_le _ _ I g) as Y. unfold n_awaiting in Y. unfold cnt in *. lia.
+    apply ginv_with_pending; [exact I|]. intros g.
+    pose proof (check_reply_cnt (fun p => p_get p =? g) (s_pending s) c d serial). pose proof (gi_pend_le _ _ I g) as Y. unfold n_awaiting in Y. unfold cnt in *. lia.
   - cbn [lstep]. destruct (expire_one (s_pending s) c serial) as [pl|] eqn:Ex; [|exact I]. cbn [fst].
-    apply linv_with_pending; [exact I|]. intros g.
-    pose proof (expire_one_cnt (fun p => p_get p =? g) _ _ _ _ Ex). pose proof (li_pend_le _ _ I g) as Y. unfold n_awaiting in Y. unfold cnt in *. lia.
+    apply ginv_with_pending; [exact I|]. intros g.
+    pose proof (expire_one_cnt (fun p => p_get p =? g) _ _ _ _ Ex). pose proof (gi_pend_le _ _ I g) as Y. unfold n_awaiting in Y. unfold cnt in *. lia.
   - cbn [lstep]. destruct (find_conn (s_conns s) c) as [cn|]; [|exact I].
-    destruct (negb (c_active cn)); [apply disconnect_linv; exact I | exact I].
-  - cbn [lstep]. destruct (find_conn (s_conns s) c) as [cn|]; [|exact I].
-    destruct (too_long L hdr); [apply disconnect_linv; exact I | exact I].
+    destruct (negb (c_active cn)); [apply disconnect_ginv; exact I | exact I].
+  - cbn [lstep]. destruct (find_conn (s_conns s) c) as [cn|]; [|exact I]. destruct (find_cd (s_cdata s) c) as [d|]; [|exact I].
+    destruct (too_long_at (d_maxmsg d) hdr); [apply disconnect_ginv; exact I | exact I].
+Qed.
+
+(* ---- what a fixed configuration adds: the cached state of the listening watches is the one
+   bus_context_check_all_watches would compute now, and every connection's loader has the configured maximum ---- *)
+Record freshp (L : limits) (P : N -> Prop) (s : state) : Prop := mkFresh {
+  fr_watches : s_watches s = watches_for L (s_nincomplete s);
+  fr_maxmsg : forall d, In d (s_cdata s) -> P (d_maxmsg d)
+}.
+(* under one configuration: every loader has the configured maximum *)
+Definition fresh (L : limits) (s : state) : Prop := freshp L (fun m => m = loader_max L) s.
+
+Lemma upd_cd_in ds c f y : In y (upd_cd ds c f) -> In y ds \/ exists x, In x ds /\ y = f x.
+Proof.
+  induction ds as [|x ds IH]; simpl; [tauto|]. destruct (d_id x =? c); simpl.
+  - intros [<-|H]; [right; eauto | left; auto].
+  - intros [<-|H]; [left; auto|]. destruct (IH H) as [H1|[z [Hz ->]]]; [left; auto | right; eauto].
+Qed.
+
+Lemma disconnect_fresh L (P : N -> Prop) s c byb : freshp L P s -> freshp L P (fst (disconnect L s c byb)).
+Proof.
+  intros [W M]. unfold disconnect.
+  destruct (find_conn (s_conns s) c) as [cn|]; [|split; assumption]. destruct (find_cd (s_cdata s) c) as [d|]; [|split; assumption].
+  destruct (step (reg L s) (EvDisconnect c)) as [b' ro]. destruct (existsb is_fault ro); [split; assumption|].
+  destruct (drop_pending (s_pending s) c) as [pl po]. cbn [fst]. split; cbn [s_watches s_nincomplete s_cdata].
+  - destruct (c_active cn); [exact W | reflexivity].
+  - intros x Hx. apply del_cd_in in Hx. exact (M x Hx).
+Qed.
+
+Lemma lstep_fresh L (P : N -> Prop) s e : P (loader_max L) -> freshp L P s -> freshp L P (fst (lstep L s e)).
+Proof.
+  intros HP F. pose proof F as [W M]. destruct e; cbn [lstep]; try exact F; try (apply disconnect_fresh; exact F).
+  - destruct (negb (s_watches s)); [exact F|]. destruct (max_incomplete_connections L <? s_nincomplete s + 1); [exact F|].
+    cbn [step reg b_conns b_services b_next b_limit fst]. split; cbn [s_watches s_nincomplete s_cdata]; [reflexivity|].
+    intros d Hd. apply in_app_or in Hd. destruct Hd as [Hd|[<-|[]]]; [exact (M d Hd) | exact HP].
+  - destruct (find_cd (s_cdata s) c) as [d|]; [|exact F]. destruct (d_auth d); [exact F|]. cbn [fst]. split; cbn [with_rules s_watches s_nincomplete s_cdata]; [exact W|].
+    intros y Hy. apply upd_cd_in in Hy. destruct Hy as [Hy|[x [Hx ->]]]; [exact (M y Hy) | exact (M x Hx)].
+  - destruct (find_conn (s_conns s) c) as [cn|]; [|exact F]. destruct (find_cd (s_cdata s) c) as [d|]; [|exact F].
+    destruct (negb (d_auth d)); [exact F|]. destruct (c_active cn); [exact F|].
+    destruct (max_completed_connections L <=? s_ncomplete s); [exact F|].
+    destruct (max_connections_per_user L <=? get_uid (s_byuser s) (d_uid d)); [exact F|].
+    destruct (step (reg L s) (EvHello c)) as [b' ro]. destruct (existsb is_fault ro); [exact F|]. cbn [fst].
+    split; cbn [s_watches s_nincomplete s_cdata]; [reflexivity | exact M].
+  - unfold via_registry. destruct (step (reg L s) (EvRequest c name flags)) as [b' ro]. destruct (existsb is_fault ro); [exact F | split; assumption].
+  - unfold via_registry. destruct (step (reg L s) (EvRelease c name)) as [b' ro]. destruct (existsb is_fault ro); [exact F | split; assumption].
+  - destruct (find_conn (s_conns s) c) as [cn|]; [|exact F]. destruct (find_cd (s_cdata s) c) as [d|]; [|exact F].
+    destruct (negb (c_active cn)); [exact F|]. destruct (max_match_rules_per_connection L <=? d_nrules d); [exact F|].
+    destruct rule; [|exact F]. cbn [fst]. split; cbn [with_rules s_watches s_nincomplete s_cdata]; [exact W|].
+    intros y Hy. apply upd_cd_in in Hy. destruct Hy as [Hy|[x [Hx ->]]]; [exact (M y Hy) | exact (M x Hx)].
+  - destruct (find_conn (s_conns s) c) as [cn|]; [|exact F]. destruct (find_cd (s_cdata s) c) as [d|]; [|exact F].
+    destruct (negb (c_active cn)); [exact F|]. destruct rule; [|exact F]. destruct (remove_rule (s_rules s) c n); [|exact F].
+    cbn [fst]. split; cbn [with_rules s_watches s_nincomplete s_cdata]; [exact W|].
+    intros y Hy. apply upd_cd_in in Hy. destruct Hy as [Hy|[x [Hx ->]]]; [exact (M y Hy) | exact (M x Hx)].
+  - destruct (find_conn (s_conns s) c) as [cn|]; [|exact F]. destruct (negb (c_active cn)); [apply disconnect_fresh; exact F|].
+    destruct (negb (is_active s d)); [exact F|]. destruct noreply; [split; assumption|].
+    destruct (expect_scan _ c d serial 0); [|split; assumption]. destruct (max_replies_per_connection L <=? n); split; assumption.
+  - destruct (find_conn (s_conns s) d) as [dn|]; [|exact F]. destruct (negb (c_active dn)); [apply disconnect_fresh; exact F|].
+    destruct (negb (is_active s c)); [exact F | split; assumption].
+  - destruct (expire_one (s_pending s) c serial); [split; assumption | exact F].
+  - destruct (find_conn (s_conns s) c) as [cn|]; [|exact F]. destruct (negb (c_active cn)); [apply disconnect_fresh; exact F | exact F].
+  - destruct (find_conn (s_conns s) c) as [cn|]; [|exact F]. destruct (find_cd (s_cdata s) c) as [d|]; [|exact F].
+    destruct (too_long_at (d_maxmsg d) hdr); [apply disconnect_fresh; exact F | exact F].
+Qed.
+
+(* ---- the invariant of a run under one configuration -------------------------------------------------------------------------- *)
+Definition linv (L : limits) (s : state) : Prop := ginv (bounds_of L) s /\ fresh L s.
+
+Section Accessors.
+  Variables (L : limits) (s : state) (I : linv L s).
+  Definition li_ids := gi_ids _ _ (proj1 I).
+  Definition li_bounded : bounded (max_names_per_connection L) (s_conns s) := gi_bounded _ _ (proj1 I).
+  Definition li_ncomp := gi_ncomp _ _ (proj1 I).
+  Definition li_ninc := gi_ninc _ _ (proj1 I).
+  Definition li_user := gi_user _ _ (proj1 I).
+  Definition li_nrules := gi_nrules _ _ (proj1 I).
+  Definition li_rules_live := gi_rules_live _ _ (proj1 I).
+  Definition li_comp_le : s_ncomplete s <= max_completed_connections L := gi_comp_le _ _ (proj1 I).
+  Definition li_inc_le : s_nincomplete s <= max_incomplete_connections L := gi_inc_le _ _ (proj1 I).
+  Definition li_user_le : forall u, get_uid (s_byuser s) u <= max_connections_per_user L := gi_user_le _ _ (proj1 I).
+  Definition li_rules_le : forall d, In d (s_cdata s) -> d_nrules d <= max_match_rules_per_connection L := gi_rules_le _ _ (proj1 I).
+  Definition li_pend_le : forall c, n_awaiting s c <= max_replies_per_connection L := gi_pend_le _ _ (proj1 I).
+  Definition li_auth := gi_auth _ _ (proj1 I).
+  Definition li_watches := fr_watches _ _ _ (proj2 I).
+  Definition li_maxmsg : forall d, In d (s_cdata s) -> d_maxmsg d = loader_max L := fr_maxmsg _ _ _ (proj2 I).
+End Accessors.
+
+Lemma linv_inv L s : linv L s -> inv (reg L s).
+Proof. intros [I _]. exact (ginv_inv _ L s I). Qed.
+Lemma linv_nodup L s : linv L s -> NoDup (ids (s_conns s)).
+Proof. intros [I _]. exact (ginv_nodup _ s I). Qed.
+Lemma linv_nodup_cd L s : linv L s -> NoDup (cids (s_cdata s)).
+Proof. intros [I _]. exact (ginv_nodup_cd _ s I). Qed.
+
+Lemma init_linv L : 1 <= max_incomplete_connections L -> linv L linit.
+Proof.
+  intros H. split; [apply init_ginv|]. split; [|intros d []]. simpl. unfold watches_for.
+  symmetry. apply negb_true_iff. apply N.leb_gt. lia.
+Qed.
+
+Theorem lstep_linv L s e : 1 <= max_names_per_connection L -> linv L s -> linv L (fst (lstep L s e)).
+Proof. intros Hpos [I F]. split; [apply lstep_ginv; [apply covers_self | exact Hpos | exact I] | apply lstep_fresh; [reflexivity | exact F]]. Qed.
+
+Lemma disconnect_linv L s c byb : linv L s -> linv L (fst (disconnect L s c byb)).
+Proof. intros [I F]. split; [apply disconnect_ginv; exact I | apply disconnect_fresh; exact F]. Qed.
+
+Lemma hello_linv L s c : 1 <= max_names_per_connection L -> linv L s -> linv L (fst (lstep L s (Hello c))).
+Proof. intros Hpos I. apply lstep_linv; assumption. Qed.
+
+Lemma via_registry_linv L s c e :
+  (exists name flags, e = EvRequest c name flags) \/ (exists name, e = EvRelease c name) ->
+  linv L s -> linv L (fst (via_registry L s c e)).
+Proof.
+  intros He [I F]. split; [apply via_registry_ginv; [apply covers_self | exact He | exact I]|].
+  unfold via_registry. destruct (step (reg L s) e) as [b' ro]. destruct (existsb is_fault ro); [exact F|]. destruct F as [W M]. split; assumption.
 Qed.
 
 Lemma lrun_snoc L s h e : fst (lrun L s (h ++ [e])) = fst (lstep L (fst (lrun L s h)) e).
@@ -560,7 +696,7 @@ Proof.
   - destruct (lstep L s x) as [s1 o]. specialize (IH s1). destruct (lrun L s1 (h ++ [e])). destruct (lrun L s1 h). exact IH.
 Qed.
 
-Theorem reachable_linv L h : 1 <= max_names_per_connection L -> linv L (fst (lrun L linit h)).
+Theorem reachable_linv L h : usable L -> linv L (fst (lrun L linit h)).
 Proof.
-  intros Hpos. induction h as [|e h IH] using rev_ind; [apply init_linv|]. rewrite lrun_snoc. apply lstep_linv; assumption.
+  intros [Hpos Hinc]. induction h as [|e h IH] using rev_ind; [apply init_linv; exact Hinc|]. rewrite lrun_snoc. apply lstep_linv; assumption.
 Qed.
